@@ -9,7 +9,13 @@
 * `Hub.request(app, method, uri, headers, body)` dispatches one request through
   `app.find_handler(HTTPServerRequest(...)).execute()` with a capture connection; the status is the one written
   to the wire (`start_line.code`).
-* `Hub.digest()` is a canonical dump of the hub state used by "no state change" oracles.
+* `Hub.start_request(...)` starts a request without waiting for its answer (`Pending`): long-running requests
+  (an admin restore held open by a slow port / a slow slave, a consumer's long-poll) stay in flight while other
+  callers are dispatched. `Pending.drop()` closes the client side of the connection the way tornado's
+  HTTP1Connection reports it (close callback -> `handler.on_connection_close()`, later writes fail with
+  StreamClosedError). `handler.finish()` -> `on_finish()` is tornado's own code and runs as on a socket.
+* `Hub.digest()` is a canonical dump of the hub state used by "no state change" oracles (incl. the two global
+  switches "core updating" / "event handling", the listening sessions and their pending requests, running sequences).
 
 Nothing here reads a private attribute of qtoggleserver except where a comment says so (each such read is
 wrapped and degrades to "not observed").
@@ -43,6 +49,17 @@ def sha256(s: str) -> str:
 # --------------------------------------------------------------------------------------------------
 
 EFFECTS: dict[str, int] = {}            # OS-level / outward effects recorded instead of performed
+SLOW_HOST = 'c09slow.invalid'           # outgoing requests to this host are held while HOLD_SLOW_HOST[0]
+HOLD_SLOW_HOST = [False]
+HELD: list = []                         # answers (599) of held outgoing requests, delivered by release_held()
+VICTIM_SID = 'c09victim'
+OTHER_SID = 'c09other'
+
+
+def release_held() -> None:
+    HOLD_SLOW_HOST[0] = False
+    while HELD:
+        HELD.pop(0)()
 
 
 def effect(name: str) -> None:
@@ -136,6 +153,35 @@ def _make_hw_port():
     return HwPort
 
 
+def _make_slow_port():
+    from qtoggleserver.core import ports as core_ports
+
+    class SlowPort(core_ports.Port):
+        """A non-virtual port whose display_name is also pushed to the hardware behind it: the setter waits for the
+        hardware (`gate`). Holds an admin's PUT /api/ports open for as long as the harness wants."""
+        TYPE = core_ports.TYPE_NUMBER
+
+        def __init__(self, port_id: str) -> None:
+            super().__init__(port_id)
+            self.set_started = asyncio.Event()
+            self.gate = asyncio.Event()
+            self.gate.set()
+            self.polls = 0            # reads made by the hub (the digest reads with count=False)
+            self.counting = True
+
+        async def attr_set_display_name(self, value: str) -> None:
+            self.set_started.set()
+            await self.gate.wait()
+            self._display_name = value
+
+        async def read_value(self):
+            if self.counting:
+                self.polls += 1
+            return 1
+
+    return SlowPort
+
+
 def _make_peripheral():
     from qtoggleserver.peripherals import Peripheral
 
@@ -155,11 +201,16 @@ def _make_http_client():
     from tornado import httpclient
 
     class NoNetworkHTTPClient(httpclient.AsyncHTTPClient):
-        """Every outgoing request fails at once (599); recorded as an effect."""
+        """Every outgoing request fails at once (599); recorded as an effect. Requests to `SLOW_HOST` fail too, but
+        only when the harness says so (`release_held()`): a device that answers slowly."""
 
         def fetch_impl(self, request, callback) -> None:
             effect('http-out')
-            callback(httpclient.HTTPResponse(request, 599, error=httpclient.HTTPError(599, 'no network in harness')))
+            resp = httpclient.HTTPResponse(request, 599, error=httpclient.HTTPError(599, 'no network in harness'))
+            if SLOW_HOST in request.url and HOLD_SLOW_HOST[0]:
+                HELD.append(lambda: callback(resp))
+                return
+            callback(resp)
 
     return NoNetworkHTTPClient
 
@@ -168,6 +219,7 @@ _FACTORIES = {
     'MemPersistDriver': _make_persist_driver,
     'FakeFWDriver': _make_fw_driver,
     'HwPort': _make_hw_port,
+    'SlowPort': _make_slow_port,
     'FakePeripheral': _make_peripheral,
     'NoNetworkHTTPClient': _make_http_client,
 }
@@ -198,17 +250,33 @@ class CaptureConnection:
         self.headers = None
         self.body = b''
         self.finished = False
+        self.closed = False             # the client went away before the answer (see `close_by_client`)
         self.close_callback = None
 
     def set_close_callback(self, callback) -> None:
         self.close_callback = callback
 
+    def close_by_client(self) -> None:
+        """HTTP1Connection._on_connection_close: the stream is closed, the close callback (RequestHandler sets it to
+        its on_connection_close; finish() clears it) is called once."""
+        self.closed = True
+        callback, self.close_callback = self.close_callback, None
+        if callback is not None:
+            callback()
+
     def _done(self):
         f = asyncio.get_event_loop().create_future()
-        f.set_result(None)
+        if self.closed:                 # HTTP1Connection.write_headers / write on a closed stream
+            from tornado.iostream import StreamClosedError
+            f.set_exception(StreamClosedError())
+            f.exception()
+        else:
+            f.set_result(None)
         return f
 
     def write_headers(self, start_line, headers, chunk=None):
+        if self.closed:
+            return self._done()
         if self.status is None:             # only the first status line reaches a client
             self.status = start_line.code
             self.reason = start_line.reason
@@ -218,12 +286,33 @@ class CaptureConnection:
         return self._done()
 
     def write(self, chunk):
-        if chunk:
+        if chunk and not self.closed:
             self.body += chunk
         return self._done()
 
     def finish(self) -> None:
         self.finished = True
+
+
+class Pending:
+    """A request that has been handed to its handler and may not have been answered yet."""
+
+    def __init__(self, cap, handler_class, task) -> None:
+        self.cap = cap
+        self.handler_class = handler_class
+        self.task = task
+
+    @property
+    def answered(self) -> bool:
+        return self.cap.finished
+
+    def drop(self) -> None:
+        """The client closes the connection while the request is being processed."""
+        if not self.cap.finished:
+            self.cap.close_by_client()
+
+    def response(self) -> 'Response':
+        return Response(self.cap.status, self.cap.headers, self.cap.body, self.handler_class, self.cap.finished)
 
 
 class Response:
@@ -359,8 +448,35 @@ class Hub:
         from qtoggleserver.core.device import attrs as core_device_attrs
         from qtoggleserver.slaves import devices as slaves_devices
 
+        from qtoggleserver.core import events as core_events
+        from qtoggleserver.core import main as core_main
+
         self.set_passwords()
         mod = sys.modules[__name__]
+        # leftovers of a background scenario (only after a failure inside one): nothing in flight, both switches on
+        release_held()
+        core_main.enable_updating()
+        core_events.enable()
+        slow = core_ports.get('slow1')
+        if slow is not None:
+            slow.gate.set()
+            await slow.remove()
+        if self.settings.slaves.enabled:
+            for s in list(slaves_devices.get_all()):
+                if s.get_name() != 'slv1':
+                    try:
+                        await slaves_devices.remove(s)
+                    except Exception:
+                        pass
+        for pid in ('hw1',):
+            p = core_ports.get(pid)
+            if p is not None:
+                if not p.is_enabled():
+                    await p.enable()
+                try:
+                    await p.set_sequence([], [], 0)
+                except Exception:
+                    pass
         for pid, typ in (('vn1', 'number'), ('vb1', 'boolean')):
             if core_ports.get(pid) is None:
                 # as core.api.funcs.ports.add_virtual_port does
@@ -391,6 +507,16 @@ class Hub:
             except Exception:
                 pass
         core_device_attrs.display_name = 'c09'
+
+    async def add_slow_port(self):
+        from qtoggleserver.core import ports as core_ports
+        mod = sys.modules[__name__]
+        p = core_ports.get('slow1')
+        if p is None:
+            p = (await core_ports.load([{'driver': mod.SlowPort, 'port_id': 'slow1'}]))[0]
+            await p.enable()
+            p.set_last_read_value(1)
+        return p
 
     def set_passwords(self, admin_empty: bool = False, empty: str | None = None) -> None:
         """`empty`: 3 characters 0/1 — the admin / normal / view-only password is empty (default: all set)."""
@@ -466,7 +592,8 @@ class Hub:
         from qtoggleserver.core import sessions as core_sessions
         core_sessions.update()
 
-    async def request(self, app, method: str, uri: str, headers: dict | None = None, body: bytes = b'') -> Response:
+    def start_request(self, app, method: str, uri: str, headers: dict | None = None, body: bytes = b'') -> Pending:
+        """Hand a request to the application; do not wait for the answer."""
         from tornado.httputil import HTTPHeaders, HTTPServerRequest
         h = HTTPHeaders()
         for k, v in (headers or {}).items():
@@ -476,8 +603,14 @@ class Hub:
         delegate = app.find_handler(req)
         handler_class = getattr(delegate, 'handler_class', None)
         fut = delegate.execute()
-        if fut is not None:
-            await fut
+        task = asyncio.ensure_future(fut) if fut is not None else None
+        return Pending(cap, handler_class, task)
+
+    async def request(self, app, method: str, uri: str, headers: dict | None = None, body: bytes = b'') -> Response:
+        pending = self.start_request(app, method, uri, headers, body)
+        cap, handler_class = pending.cap, pending.handler_class
+        if pending.task is not None:
+            await pending.task
         for _ in range(200):
             if cap.finished:
                 break
@@ -492,6 +625,44 @@ class Hub:
         return Response(cap.status, cap.headers, cap.body, handler_class, cap.finished)
 
     # ---- state digest ----
+    def _future_label(self, fut):
+        """Ordinal of a pending-request future among those seen since `reset_future_labels()` (strong references are
+        kept, so that a new future cannot be mistaken for a collected one)."""
+        if fut is None:
+            return None
+        seen = self.__dict__.setdefault('_futures_seen', [])
+        for i, f in enumerate(seen):
+            if f is fut:
+                return i
+        seen.append(fut)
+        return len(seen) - 1
+
+    def reset_future_labels(self) -> None:
+        self._futures_seen = []
+
+    @staticmethod
+    def switches() -> dict:
+        """The two global switches a restore turns off: core updating (polling, expressions, value changes) and
+        event handling. Public accessor if the code has one; else the module flag (private read, degrades to
+        "not observed" = None)."""
+        from qtoggleserver.core import main as core_main
+        from qtoggleserver.core.events import handlers as core_events_handlers
+        res = {}
+        for key, mod, accessor, flag in (('updating', core_main, 'is_updating_enabled', '_updating_enabled'),
+                                         ('events', core_events_handlers, 'is_enabled', '_enabled')):
+            val = None
+            f = getattr(mod, accessor, None)
+            if callable(f):
+                try:
+                    val = bool(f())
+                except Exception:
+                    val = None
+            if val is None:
+                v = getattr(mod, flag, None)
+                val = v if isinstance(v, bool) else None
+            res[key] = val
+        return res
+
     async def digest(self) -> dict:
         from qtoggleserver import peripherals, persist
         from qtoggleserver.core import ports as core_ports
@@ -508,11 +679,18 @@ class Hub:
         ports = {}
         for p in core_ports.get_all():
             entry = {'json': await p.to_json()}
+            if hasattr(p, 'counting'):
+                p.counting = False                                  # SlowPort: this read is not one of the hub's
             try:
                 entry['read'] = await p.read_value()
             except Exception as e:                                  # noqa
                 entry['read'] = f'exc:{type(e).__name__}'
+            if hasattr(p, 'counting'):
+                p.counting = True
+                entry['polls'] = p.polls
             entry['written'] = list(getattr(p, 'written', []))       # HwPort's own log
+            # a running sequence: no public accessor; private read, degrades to "not observed"
+            entry['sequence'] = (getattr(p, '_sequence') is not None) if hasattr(p, '_sequence') else None
             ports[p.get_id()] = canon(entry)
         d['ports'] = ports
         attrs = await core_device_attrs.get_attrs()
@@ -534,9 +712,24 @@ class Hub:
         d['persist'] = canon(pers)
         d['persist_writes'] = sys.modules[__name__].MemPersistDriver.writes
         d['effects'] = canon(EFFECTS)
-        # number of listening sessions: no public accessor; private read, degrades to "not observed"
+        # listening sessions: no public accessor for the registry; private read, degrades to "not observed". Per
+        # session (public attributes/methods of Session): is a request waiting, which one (ordinal of the future,
+        # see `_future_label`), its level, the queued event types.
         sess = getattr(core_sessions, '_sessions_by_id', None)
-        d['sessions'] = len(sess) if isinstance(sess, dict) else None
+        if isinstance(sess, dict):
+            rows = []
+            for sid in sorted(sess):
+                ses = sess[sid]
+                try:
+                    rows.append([sid, bool(ses.is_active()), self._future_label(getattr(ses, 'future', None)),
+                                 getattr(ses, 'access_level', None), getattr(ses, 'timeout', None),
+                                 [getattr(e, 'TYPE', type(e).__name__) for e in list(getattr(ses, 'queue', []))]])
+                except Exception as e:                              # noqa
+                    rows.append([sid, f'exc:{type(e).__name__}'])
+            d['sessions'] = canon(rows)
+        else:
+            d['sessions'] = None
+        d['switches'] = canon(self.switches())
         s = self.settings
         d['settings'] = canon({'debug': s.debug, 'virtual_ports': s.core.virtual_ports,
                                'frontend': s.frontend.enabled, 'slaves': s.slaves.enabled,
